@@ -156,9 +156,16 @@ def check_doo(ctx):
            and leaf_atom(f.cand) in fa and ("truthy", "%s.visited" % f.cand, "") in fa)
     ctx.ob("R08-EXPAND", okf, c.file, q, "expanded leaf = evaluated leaf with the highest b-value", f.describe() + "; facts %s" % fa, f.if_node.lineno)
     # the b-value is recomputed, with this depth's delta, right before it is compared
-    blk = enclosing_block(model, f.if_node)
-    pre = [norm_src(s) for s in blk[:blk.index(f.if_node)]]
-    okb = pre == ["%s.compute_b_value(delta)" % f.cand]
+    # (a call <cand>.compute_b_value(delta) inside the cell loop that dominates the comparison)
+    calls_b = [x for x in ast.walk(f.inner) if isinstance(x, ast.Call) and method_name(x) == "compute_b_value" and
+               norm_src(x.func.value) == f.cand and [norm_src(a) for a in x.args] + [norm_src(k.value) for k in x.keywords] == ["delta"]]
+    pre = [norm_src(x) for x in calls_b]
+    okb = len(calls_b) == 1 and g.dominates(g.node_of(calls_b[0]), g.node_of(f.if_node)) and \
+        isinstance(model.enclosing_stmt(calls_b[0]), ast.Expr)
+    if okb:
+        # not guarded by anything the comparison is not guarded by (it must run for every evaluated leaf)
+        ga = set(atoms_at(g, g.node_of(calls_b[0])))
+        okb = ga <= set(atoms_at(g, g.node_of(f.if_node)))
     dl = [s for s in ast.walk(pull) if isinstance(s, ast.Assign) and norm_src(s.targets[0]) == "delta"]
     okd = len(dl) == 1 and norm_src(dl[0].value) == "self.delta(h)"
     if okd:
@@ -245,6 +252,66 @@ def index_fold(loop):
     return dict(idx=idx, j=j, layer=layer, node=node, getter=getter, direction=direction, pre=[norm_src(s) for s in pre], loop=loop)
 
 
+def ref_fold(loop):
+    """StoSOO with the best leaf held by reference:
+         best = None
+         for [j,] node in [enumerate(]L[)]:
+             if node is a leaf:
+                 <pre>
+                 if best is None or key(best) <= key(node):   (any equivalent orientation)
+                     [idx = j]
+                     best = node
+    returns dict(sel=<best name>, ...) or None."""
+    it = norm_src(loop.iter)
+    tg = loop.target
+    j = None
+    if isinstance(tg, ast.Tuple) and len(tg.elts) == 2 and it.startswith("enumerate(") and it.endswith(")"):
+        layer = it[len("enumerate("):-1]
+        j, node = norm_src(tg.elts[0]), norm_src(tg.elts[1])
+    elif isinstance(tg, ast.Name):
+        layer, node = it, tg.id
+    else:
+        return None
+    body = loop.body
+    if len(body) != 1 or not isinstance(body[0], ast.If) or body[0].orelse or norm_src(body[0].test) != "%s.get_children() is None" % node:
+        return None
+    I = body[0]
+    pre = [x for x in I.body if not isinstance(x, ast.If)]
+    sel = [x for x in I.body if isinstance(x, ast.If)]
+    if len(sel) != 1 or sel[0].orelse:
+        return None
+    S = sel[0]
+    t = S.test
+    if not (isinstance(t, ast.BoolOp) and isinstance(t.op, ast.Or) and len(t.values) == 2):
+        return None
+    none_t, cmp_t = t.values
+    if not (isinstance(none_t, ast.Compare) and norm_src(none_t).endswith(" is None") and isinstance(cmp_t, ast.Compare) and len(cmp_t.ops) == 1):
+        return None
+    best = norm_src(none_t.left)
+    l, r = norm_src(cmp_t.left), norm_src(cmp_t.comparators[0])
+    op = type(cmp_t.ops[0])
+    getter = direction = None
+    for a, b, flip in ((l, r, False), (r, l, True)):
+        if a.startswith(best + ".") and b.startswith(node + ".") and a[len(best):] == b[len(node):]:
+            getter = a[len(best) + 1:]
+            o = op if not flip else {ast.LtE: ast.GtE, ast.Lt: ast.Gt, ast.GtE: ast.LtE, ast.Gt: ast.Lt}.get(op)
+            direction = "max" if o in (ast.LtE, ast.Lt) else ("min" if o in (ast.GtE, ast.Gt) else None)
+    if getter is None:
+        return None
+    assigns = [norm_src(x) for x in S.body]
+    if "%s = %s" % (best, node) not in assigns:
+        return None
+    others = [a for a in assigns if a != "%s = %s" % (best, node)]
+    idx = None
+    for a in others:
+        if j is not None and a.endswith(" = %s" % j):
+            idx = a[: -len(" = %s" % j)]
+        else:
+            return None
+    return dict(idx=idx, j=j, layer=layer, node=node, getter=getter, direction=direction, pre=[norm_src(x) for x in pre], loop=loop,
+                sel=best, seedvars=[best] + ([idx] if idx else []))
+
+
 def check_stosoo(ctx):
     model = ctx.model
     c = model.cls("StoSOO")
@@ -253,7 +320,7 @@ def check_stosoo(ctx):
     ctx.fn(q)
     g = C.CFG(pull)
     loops = [l for l in ast.walk(pull) if isinstance(l, ast.For)]
-    rec = [index_fold(l) for l in loops]
+    rec = [index_fold(l) or ref_fold(l) for l in loops]
     rec = [r for r in rec if r]
     if len(rec) != 1:
         ctx.violation("R08-EXPAND", c.file, q, "choice of the max-b leaf", "not recognised as the index arg-max of b over the leaves of the depth", pull.lineno)
@@ -263,11 +330,12 @@ def check_stosoo(ctx):
         r["pre"] == ["%s.compute_b_value(n=self.n, k=self.k, delta=self.delta)" % r["node"]]
     ctx.ob("R08-EXPAND", okf, c.file, q, "max-b leaf of depth h, b recomputed for every leaf with (n, k, delta)", "%s" % {k: v for k, v in r.items() if k != "loop"},
            r["loop"].lineno)
-    sel = "%s[%s]" % (r["layer"], r["idx"])
-    # seed: idx = None before the loop, in the same block
+    sel = r.get("sel") or "%s[%s]" % (r["layer"], r["idx"])
+    # seed: idx / best = None before the loop, in the same block
     blk = enclosing_block(model, r["loop"])
     seeds = [norm_src(s) for s in blk[:blk.index(r["loop"])]]
-    ctx.ob("R08-EXPAND", "%s = None" % r["idx"] in seeds, c.file, q, "selection restarts at every depth", "%s" % seeds, r["loop"].lineno, nontrivial=False)
+    ctx.ob("R08-EXPAND", all("%s = None" % v in seeds for v in r.get("seedvars", [r["idx"]])), c.file, q, "selection restarts at every depth",
+           "%s" % seeds, r["loop"].lineno, nontrivial=False)
     # hand-out / expansion
     rets = [x for x in ast.walk(pull) if isinstance(x, ast.Return) and x.value is not None]
     sites = calls_in(pull, "make_children")
